@@ -1386,6 +1386,10 @@ impl<'b, R: 'b + Read> ArchiveFailSafeReader<'b, R> {
         let mut id_failsafe_done = Vec::new();
         // Associate an id retrieved from the archive with its ongoing Hash
         let mut id_failsafe2hash: HashMap<ArchiveFileID, Sha256> = HashMap::new();
+        // This buffer is used to reduced the resulting file fragmentation by aggregating `read` results.
+        // It is allocated once: allocating (and zeroing) it for every block made the cost of a repair
+        // proportional to the number of blocks times `CACHE_SIZE`, whatever their size
+        let mut buf = vec![0; CACHE_SIZE];
 
         'read_block: loop {
             match ArchiveFileBlock::from(&mut self.src) {
@@ -1469,8 +1473,6 @@ impl<'b, R: 'b + Read> ArchiveFailSafeReader<'b, R> {
                             // Note: some `Read` implementation does not respect this contract, as it might be
                             // subject to different interpretation
 
-                            // This buffer is used to reduced the resulting file fragmentation by aggregating `read` results
-                            let mut buf = vec![0; CACHE_SIZE];
                             'content: loop {
                                 let mut next_write_pos = 0;
                                 'buf_fill: loop {
